@@ -80,6 +80,33 @@ func (p *Prog) nonNilMap(v ssa.Value, b *ssa.BasicBlock, edge []condFact, depth 
 				return true
 			}
 		}
+	case *ssa.Extract:
+		// one result of a helper that also returns an error (`n, attr, err := readWithAttributes(…)`): where the error
+		// is known nil, the result is non-nil if every return of the helper that can carry a nil error returns a
+		// non-nil map
+		if c, ok := x.Tuple.(*ssa.Call); ok && depth < 4 {
+			sc := c.Call.StaticCallee()
+			fe := errExtract(c)
+			if sc != nil && p.InUniverse(sc) && sc.Blocks != nil && fe != nil && p.nilnessAt(fe, b) == -1 {
+				all, n := true, 0
+				for _, rb := range sc.Blocks {
+					ret, ok := rb.Instrs[len(rb.Instrs)-1].(*ssa.Return)
+					if !ok || x.Index >= len(ret.Results) {
+						continue
+					}
+					if p.nonNilError(ret.Results[len(ret.Results)-1], rb) {
+						continue // an error return: not the branch we are on
+					}
+					n++
+					if !p.nonNilMap(ret.Results[x.Index], rb, nil, depth+2) {
+						all = false
+					}
+				}
+				if all && n > 0 {
+					return true
+				}
+			}
+		}
 	case *ssa.UnOp:
 		// a load from a local cell (the variable was spilled, e.g. because a closure captures it)
 		if al, ok := cellAddr(x.X).(*ssa.Alloc); ok && x.Op == token.MUL {
